@@ -7,14 +7,20 @@ package main
 
 import (
 	"bufio"
+	"bytes"
+	"context"
 	"encoding/json"
 	"flag"
 	"fmt"
 	"hash/fnv"
 	"math/rand"
 	"os"
+	"os/exec"
 	"path/filepath"
 	"sort"
+	"strings"
+	"sync"
+	"syscall"
 	"time"
 )
 
@@ -51,6 +57,8 @@ type Ctx struct {
 	Rep      *Report
 	seen     map[uint64]struct{}
 	maxFails int
+	worker   string
+	outDir   string
 }
 
 func (c *Ctx) Thorough() bool { return c.Tier == "thorough" }
@@ -96,6 +104,149 @@ func (c *Ctx) Oracle(check, input, impl, oracle string, ok bool, class string) {
 	}
 }
 
+// IsWorker: this process runs one range of cases of one group on behalf of a parent harness
+func (c *Ctx) IsWorker() bool { return c.worker != "" }
+
+func caseRng(seed int64, group string, k int) *rand.Rand {
+	h := fnv.New64a()
+	h.Write([]byte(group))
+	return rand.New(rand.NewSource(seed*1000003 + int64(h.Sum64()%1000003)*7919 + int64(k)))
+}
+
+// RunCases runs cases 0..n-1 of a named group; case k is a deterministic function of (seed, group, k).
+// The parent process runs them in worker subprocesses (several at a time), so that a fatal runtime
+// error of the implementation — which cannot be recovered in-process — is attributed to the case that
+// caused it instead of ending the whole check: a chunk whose worker dies is re-run case by case.
+// desc describes case k without touching the implementation; classOf gives its known-finding class.
+func (c *Ctx) RunCases(group string, n int, run func(c *Ctx, k int, rng *rand.Rand), desc func(k int, rng *rand.Rand) string, classOf func(k int, rng *rand.Rand) string) {
+	if c.worker != "" {
+		var g string
+		var from, to int
+		parts := strings.Split(c.worker, ":")
+		if len(parts) != 3 {
+			return
+		}
+		g = parts[0]
+		fmt.Sscanf(parts[1], "%d", &from)
+		fmt.Sscanf(parts[2], "%d", &to)
+		if g != group {
+			return
+		}
+		for k := from; k < to && k < n; k++ {
+			run(c, k, caseRng(c.Seed, group, k))
+		}
+		return
+	}
+	if os.Getenv("VERIF_INPROCESS") != "" {
+		for k := 0; k < n; k++ {
+			run(c, k, caseRng(c.Seed, group, k))
+		}
+		return
+	}
+	chunk := 250
+	type job struct {
+		from, to int
+		dir      string
+		err      error
+		stderr   string
+	}
+	var jobs []*job
+	for from := 0; from < n; from += chunk {
+		to := from + chunk
+		if to > n {
+			to = n
+		}
+		jobs = append(jobs, &job{from: from, to: to, dir: filepath.Join(c.outDir, "w", fmt.Sprintf("%s-%d", group, from))})
+	}
+	spawn := func(j *job) {
+		os.MkdirAll(j.dir, 0o755)
+		limit := 20*time.Second + time.Duration(j.to-j.from)*time.Second
+		cctx, cancel := context.WithTimeout(context.Background(), limit)
+		defer cancel()
+		cmd := exec.CommandContext(cctx, os.Args[0], c.Rep.Property, "-tier", c.Tier, "-seed", fmt.Sprint(c.Seed), "-out", j.dir)
+		cmd.Env = append(os.Environ(), fmt.Sprintf("VERIF_WORKER=%s:%d:%d", group, j.from, j.to), "GOMEMLIMIT=3GiB")
+		var eb bytes.Buffer
+		cmd.Stderr = &eb
+		j.err = cmd.Run()
+		j.stderr = eb.String()
+		if cctx.Err() != nil {
+			j.stderr = fmt.Sprintf("no result within %v (killed)\n\n", limit) + j.stderr
+		}
+	}
+	sem := make(chan struct{}, 8)
+	var wg sync.WaitGroup
+	for _, j := range jobs {
+		wg.Add(1)
+		sem <- struct{}{}
+		go func(j *job) {
+			defer wg.Done()
+			defer func() { <-sem }()
+			spawn(j)
+		}(j)
+	}
+	wg.Wait()
+	merge := func(dir string) {
+		var r Report
+		b, err := os.ReadFile(filepath.Join(dir, "report.json"))
+		if err != nil || json.Unmarshal(b, &r) != nil {
+			return
+		}
+		c.Rep.Evaluations += r.Evaluations
+		c.Rep.Distinct += r.Distinct
+		c.Rep.OracleEvals += r.OracleEvals
+		for k, v := range r.Hist {
+			c.Rep.Hist[k] += v
+		}
+		for k, v := range r.Known {
+			c.Rep.Known[k] += v
+		}
+		for _, f := range r.Fails {
+			if len(c.Rep.Fails) < c.maxFails {
+				c.Rep.Fails = append(c.Rep.Fails, f)
+			}
+		}
+		for _, s := range r.Samples {
+			if len(c.Rep.Samples) < 12 {
+				c.Rep.Samples = append(c.Rep.Samples, s)
+			}
+		}
+		if ob, err := os.ReadFile(filepath.Join(dir, "ops.txt")); err == nil {
+			c.ops.Write(ob)
+		}
+		if ib, err := os.ReadFile(filepath.Join(dir, "impl.txt")); err == nil {
+			c.impl.Write(ib)
+		}
+	}
+	for _, j := range jobs {
+		if j.err == nil {
+			merge(j.dir)
+			continue
+		}
+		// the worker died: find the case(s)
+		for k := j.from; k < j.to; k++ {
+			one := &job{from: k, to: k + 1, dir: filepath.Join(c.outDir, "w", fmt.Sprintf("%s-one-%d", group, k))}
+			spawn(one)
+			if one.err == nil {
+				merge(one.dir)
+				continue
+			}
+			first := one.stderr
+			if i := strings.Index(first, "\n\n"); i > 0 {
+				first = first[:i]
+			}
+			if len(first) > 300 {
+				first = first[:300]
+			}
+			cls := ""
+			if classOf != nil {
+				cls = classOf(k, caseRng(c.Seed, group, k))
+			}
+			c.Oracle(group+"/fatal", desc(k, caseRng(c.Seed, group, k)), "the process died: "+first, "returns", false, cls)
+		}
+	}
+	os.RemoveAll(filepath.Join(c.outDir, "w"))
+}
+
 type propFunc func(c *Ctx)
 
 var props = map[string]propFunc{}
@@ -134,7 +285,14 @@ func main() {
 	c := &Ctx{Tier: *tier, Seed: *seed, Rng: rand.New(rand.NewSource(*seed)),
 		ops: bufio.NewWriterSize(of, 1<<20), impl: bufio.NewWriterSize(imf, 1<<20),
 		Rep:  &Report{Property: prop, Tier: *tier, Seed: *seed, Hist: map[string]int{}, Known: map[string]int{}, Fails: []OracleFail{}, Samples: []string{}},
-		seen: map[uint64]struct{}{}, maxFails: 20}
+		seen: map[uint64]struct{}{}, maxFails: envInt("VERIF_MAXFAILS", 20), worker: os.Getenv("VERIF_WORKER"), outDir: *out}
+	if c.worker != "" {
+		c.maxFails = 100000
+		// a runaway allocation of the implementation must end this worker, not the machine
+		var lim syscall.Rlimit
+		lim.Cur, lim.Max = 6<<30, 6<<30
+		syscall.Setrlimit(syscall.RLIMIT_AS, &lim)
+	}
 	t0 := time.Now()
 	f(c)
 	c.ops.Flush()
@@ -144,4 +302,14 @@ func main() {
 	c.Rep.WallS = time.Since(t0).Seconds()
 	js, _ := json.MarshalIndent(c.Rep, "", " ")
 	os.WriteFile(filepath.Join(*out, "report.json"), js, 0o644)
+}
+
+func envInt(name string, def int) int {
+	if v := os.Getenv(name); v != "" {
+		var n int
+		if _, err := fmt.Sscanf(v, "%d", &n); err == nil {
+			return n
+		}
+	}
+	return def
 }
